@@ -88,6 +88,7 @@ class World:
         self.record_hooks = True
         self.futures = {}  # bare futures created by workchain steps, by id
         self.children = []  # child processes launched by steps
+        self.exec_stack = []  # processes currently inside a nested child.execute() (innermost last)
         self.child_by_index = {}
 
     def rec(self, *event):
@@ -127,6 +128,26 @@ def _do_effect(proc, world, eff, plumpy):
                 raise exc
 
         proc.call_soon(callback)
+    elif kind in ('launch', 'execute'):
+        child_cls = proc.__class__._children[eff['child']]
+        world.child_serial = getattr(world, 'child_serial', 0) + 1
+        child_label = f'{label(proc)}.c{world.child_serial}'
+        if kind == 'launch':
+            child = proc.launch(child_cls)
+            child._sim_label = child_label
+            world.children.append(child)
+            world.rec('launched', label(proc), child_label, plumpy.Process.current() is proc)
+        else:
+            child = child_cls(loop=proc.loop)
+            child._sim_label = child_label
+            world.children.append(child)
+            world.exec_stack.append(proc)
+            try:
+                outputs = child.execute()
+            finally:
+                world.exec_stack.pop()
+            world.rec('after_nested', label(proc), child_label, plumpy.Process.current() is proc, freeze(outputs),
+                      child.state.value)
     elif kind in ('pause', 'play', 'kill'):
         live = not proc.has_terminated()
         try:
@@ -233,7 +254,9 @@ def _make_step(index, step, world, plumpy):
 def _make_hook(name, world, base):
     def hook(self, *args, **kwargs):
         if world.record_hooks:
-            world.rec('hook', label(self), name)
+            import sys
+
+            world.rec('hook', label(self), name, sys.modules['plumpy'].Process.current() is self)
         world.site(self, f'hook:{name}')
         value = getattr(super(cls_holder[0], self), name)(*args, **kwargs)
         world.site(self, f'hook:{name}:post')
@@ -303,6 +326,8 @@ def build_process_class(program, world, plumpy, hooks=True, record_calls=True):
         holder[0] = cls
     cls._world = world
     cls._program = program
+    cls._children = [build_process_class(child, world, plumpy, hooks=hooks, record_calls=record_calls)
+                     for child in program.get('children') or []]
     generated.register(cls, name)
     return cls
 
